@@ -201,8 +201,14 @@ func isMethodOf(f *ssa.Function, rel, typ string) bool {
 func (c *Ctx) onlyIn(what string, sites []Site, allow func(f *ssa.Function) (bool, string)) {
 	k := newKeyer()
 	for _, s := range sites {
+		// a site inside a helper introduced later with a single call site belongs to the function the
+		// helper was carved out of
+		owner := transparentRoot(outermost(s.Fn))
 		ok, why := allow(s.Fn)
-		key := k.key(outermost(s.Fn), what)
+		if !ok && owner != outermost(s.Fn) {
+			ok, why = allow(owner)
+		}
+		key := k.key(owner, what)
 		if ok {
 			c.OK(key, c.W.ipos(s.Instr), "allowed: "+why)
 		} else {
@@ -467,6 +473,47 @@ func (w *World) deepCallsTo(f *ssa.Function, depth int, specs ...string) []deepC
 			nsub := map[ssa.Value]string{}
 			for i, p := range h.Params {
 				nsub[p] = w.exprWith(args[i], sub)
+			}
+			seen[h] = true
+			walk(h, s, nsub, d-1, seen)
+			delete(seen, h)
+		}
+	}
+	walk(f, nil, nil, depth, map[*ssa.Function]bool{f: true})
+	return out
+}
+
+// deepCallsMatching: calls of f, or of helpers introduced later that f calls (any number of sites), whose
+// rendering in f's terms matches re. site is the instruction of f that stands for the call in ordering and
+// guard questions.
+func (w *World) deepCallsMatching(f *ssa.Function, depth int, re string) []deepCall {
+	rx := regexp.MustCompile(re)
+	var out []deepCall
+	var walk func(g *ssa.Function, site ssa.CallInstruction, sub map[ssa.Value]string, d int, seen map[*ssa.Function]bool)
+	walk = func(g *ssa.Function, site ssa.CallInstruction, sub map[ssa.Value]string, d int, seen map[*ssa.Function]bool) {
+		for _, call := range rawCallInstrs(g) {
+			s := site
+			if g == f {
+				s = call
+			}
+			dc := deepCall{call: call, site: s, w: w, sub: sub}
+			if rx.MatchString(dc.str()) {
+				out = append(out, dc)
+				continue
+			}
+			if d <= 0 {
+				continue
+			}
+			if _, isGo := call.(*ssa.Go); isGo {
+				continue
+			}
+			h := staticCallee(call)
+			if h == nil || seen[h] || !isNewFunc(h) || len(call.Common().Args) != len(h.Params) {
+				continue
+			}
+			nsub := map[ssa.Value]string{}
+			for i, p := range h.Params {
+				nsub[p] = w.exprWith(call.Common().Args[i], sub)
 			}
 			seen[h] = true
 			walk(h, s, nsub, d-1, seen)
